@@ -718,6 +718,67 @@ class Runner:
             self.stats["locked-requests-refused"] += 1
         return touched
 
+    def op_SYNCRACE(self, st):
+        """A member is written while a sync-collection report is being produced (after the store has handed
+        out its change list).  Whatever the report lists, the token it returns must be good for the rest: a
+        second report from that token, sent at once, has to list the member that was written."""
+        from xandikos import web
+
+        coll = SLOTS[st["coll"]]
+        name = st["name"]
+        mc = self.model.colls.get(coll)
+        self.last = {"op": "SYNCRACE", "ack": False, "coll": coll, "name": name}
+        if mc is None or mc.kind not in ("calendar", "addressbook") or "sync" not in self.obs or self.cfg.get("audit") == "sparse":
+            return set()
+        body = body_of(st)
+        before = mc.members.get(name)
+        if before is not None and same_body(before.raw, body, name, before):
+            return set()
+        tok = self.read_sync_token(coll)
+        store = web.open_store_from_path(self.world.fs_path(coll), double_check_indexes=False, index_threshold=self.cfg.get("index_threshold"))
+        orig = store.iter_changes
+        state = {"done": False, "exc": None}
+
+        def wrapped(old, new):
+            yield from orig(old, new)
+            if not state["done"]:
+                state["done"] = True
+                try:
+                    store.import_one(name, st["ctype"], [body])
+                except Exception as e:
+                    state["exc"] = repr(e)
+
+        store.iter_changes = wrapped
+        try:
+            r = self.req(st["fe"], "REPORT", coll + "/", [("Depth", "1"), dav.XML_CT], dav.sync_body(tok))
+        finally:
+            try:
+                del store.iter_changes
+            except AttributeError:
+                pass
+        if not state["done"] or state["exc"]:
+            self.stats["syncrace:not-armed"] += 1
+            if state["done"] and state["exc"]:
+                return {coll}
+            return set()
+        mc.members[name] = MMember(body, st["ctype"], (before.ver + 1) if before else 1)
+        self.coll_writes[coll] += 1
+        self.stats["syncrace"] += 1
+        ms = dav.parse_ms(r)
+        if ms is None or not ms.has_sync_token:
+            self.violation("sync", "report-failed", f"sync-collection on {coll} during which {name} was written answered {r.status} {r.exc or r.body[:200]!r}")
+        first = {name_from_href(x.href) for x in ms.responses if x.status != 404}
+        r2 = self.req(st["fe"], "REPORT", coll + "/", [("Depth", "1"), dav.XML_CT], dav.sync_body(ms.sync_token))
+        ms2 = dav.parse_ms(r2)
+        if ms2 is None:
+            self.violation("sync", "report-failed", f"sync-collection on {coll} from the token {ms.sync_token!r} just returned answered {r2.status} {r2.exc or r2.body[:200]!r}")
+        second = {name_from_href(x.href) for x in ms2.responses if x.status != 404}
+        if name not in first and name not in second:
+            self.violation("sync", "write-during-report-never-reported", f"{coll}: {name} was written while a sync-collection report (from token {tok!r}) was being produced; that report lists {sorted(first)} and returns token {ms.sync_token!r}, the next report from this token lists {sorted(second)}: the write is in neither")
+        self.sync_nontrivial = getattr(self, "sync_nontrivial", set())
+        self.sync_nontrivial.add(("syncrace", st["fe"], bool(before)))
+        return {coll}
+
     def op_CONDRACE(self, st):
         """A conditional PUT / DELETE (If-Match: current ETag) during which another writer changes the resource
         right after the front end has compared the header with the ETag it looked up: the request must not be
